@@ -117,6 +117,9 @@ func (h *Header) Load(buf *[headerSize]byte) error {
 		FileSize:   binary.LittleEndian.Uint64(buf[8:16]),
 		NumBuckets: binary.LittleEndian.Uint32(buf[16:20]),
 	}
+	if h.NumBuckets == 0 {
+		return fmt.Errorf("number of buckets not set")
+	}
 	// Check version.
 	if buf[20] != Version {
 		return fmt.Errorf("unsupported index version: want %d, got %d", Version, buf[20])
